@@ -226,7 +226,9 @@ pub struct Reject {
 
 /// Run the program on a sparse sink positioned at `start`. With `cont`, a refused op is skipped and the
 /// remaining ops are still issued. Returns (sink, finish result, indices of refused ops).
-fn run_reject(p: &Program, start: u64, cont: bool) -> (crate::sio::Shared<crate::sio::SparseFile>, Result<(), String>, Vec<usize>) {
+/// `.3` = finish() refused the archive (over-long comment), the caller then set a short comment and called
+/// finish() again: `.1` is the result of that second call
+fn run_reject(p: &Program, start: u64, cont: bool) -> (crate::sio::Shared<crate::sio::SparseFile>, Result<(), String>, Vec<usize>, bool) {
     let file = crate::sio::Shared::new(crate::sio::SparseFile::at_position(start));
     let mut w = std::mem::ManuallyDrop::new(ZipWriter::new(file.clone()));
     let mut refused = Vec::new();
@@ -236,13 +238,20 @@ fn run_reject(p: &Program, start: u64, cont: bool) -> (crate::sio::Shared<crate:
             if !cont {
                 // closing the writer is still exercised (no panic), its result does not matter
                 let _ = w.finish();
-                return (file, Err(e), refused);
+                return (file, Err(e), refused, false);
             }
         }
     }
     let r = w.finish().map(|_| ()).map_err(|e| format!("finish: {e}"));
-    (file, r, refused)
+    if r.is_err() && cont && refused.is_empty() {
+        // nothing but finish() itself was refused (an unrepresentable comment): replace the comment and retry
+        w.set_raw_comment(RETRY_COMMENT.to_vec());
+        let r2 = w.finish().map(|_| ()).map_err(|e| format!("finish (second call): {e}"));
+        return (file, r2, refused, true);
+    }
+    (file, r, refused, false)
 }
+const RETRY_COMMENT: &[u8] = b"second try";
 
 fn reject_program(r: &Reject) -> Program {
     let first = Op::File { name: "first".into(), opts: Opts::plain(Method::Deflated), chunks: vec![Content::Text { seed: 1, len: 200 }] };
@@ -281,7 +290,7 @@ fn reject_program(r: &Reject) -> Program {
 }
 
 pub fn run(ctx: &mut Ctx) {
-    ctx.rule("scenarios: C01-style programs extended with extra-data / aligned / ZipCrypto entries, optional raw copies from a generated source archive and an optional append round; every successful finish() is judged by the independent strict parser (offsets, counts, sizes, local/central agreement, UTF-8 flag, ZIP64 consistency, TLV extras, decoded CRC/size) and compared field by field with the model; a sample is also judged by CPython zipfile and unzip -t. Non-trivial = >=2 entries or an extra/aligned/encrypted/raw/appended entry. reject: name/comment/extra lengths around 65535/65536, with the writer starting at offset 0, just below 2^32 and above 2^32 (sparse sink; central records then need their own ZIP64 record next to the caller's extra data), stopping at the first refusal or continuing with the remaining calls - the oracle is 'some call returns Err, or the archive parses strictly and carries the full-length field'; whenever finish() returns Ok the archive must parse strictly and hold exactly the entries whose creation succeeded.");
+    ctx.rule("scenarios: C01-style programs extended with extra-data / aligned / ZipCrypto entries, optional raw copies from a generated source archive and an optional append round; every successful finish() is judged by the independent strict parser (offsets, counts, sizes, local/central agreement, UTF-8 flag, ZIP64 consistency, TLV extras, decoded CRC/size) and compared field by field with the model; a sample is also judged by CPython zipfile and unzip -t. Non-trivial = >=2 entries or an extra/aligned/encrypted/raw/appended entry. reject: name/comment/extra lengths around 65535/65536, with the writer starting at offset 0, just below 2^32 and above 2^32 (sparse sink; central records then need their own ZIP64 record next to the caller's extra data), stopping at the first refusal or continuing with the remaining calls (after a refused finish(): a shorter comment and a second finish()) - the oracle is 'some call returns Err, or the archive parses strictly and carries the full-length field'; whenever finish() returns Ok the archive must parse strictly and hold exactly the entries whose creation succeeded.");
     ctx.assume("version-needed is only required to agree between local and central header and be >=45 when a central ZIP64 record is present");
     ctx.assume("CPython zipfile / Info-ZIP unzip are trusted on the feature subset they support; unzip exit status 1 (warning) is not treated as rejection");
 
@@ -398,7 +407,7 @@ pub fn run(ctx: &mut Ctx) {
             info.label_if(r.cont, "calls-continue-after-refusal");
             let p = reject_program(r);
             let what = format!("{} of {} bytes (large_file={}, writer starts at offset {:#x}{})", r.kind, r.len, r.large, r.start, if r.cont { ", calls continue after a refusal" } else { "" });
-            let (file, fin, refused) = match catch(|| run_reject(&p, r.start, r.cont)) {
+            let (file, fin, refused, retried) = match catch(|| run_reject(&p, r.start, r.cont)) {
                 Err(pm) => return Verdict::Fail(format!("PANIC for {what}: {pm}")),
                 Ok(x) => x,
             };
@@ -411,10 +420,11 @@ pub fn run(ctx: &mut Ctx) {
                     _ => r.len + dirslash <= 65535,
                 }
             };
-            if !refused.is_empty() || fin.is_err() {
+            info.label_if(retried, "finish-retried-with-a-short-comment");
+            if !refused.is_empty() || fin.is_err() || retried {
                 info.label("refused-with-error");
                 if fits {
-                    return Verdict::Fail(format!("{what} is representable but was refused ({})", fin.as_ref().err().cloned().unwrap_or_else(|| format!("op {:?}", refused))));
+                    return Verdict::Fail(format!("{what} is representable but was refused ({})", fin.as_ref().err().cloned().unwrap_or_else(|| if retried { "first finish()".to_string() } else { format!("op {:?}", refused) })));
                 }
             }
             match fin {
@@ -428,7 +438,11 @@ pub fn run(ctx: &mut Ctx) {
                     for &i in refused.iter().rev() {
                         q.ops.remove(i);
                     }
-                    let (model, comment) = gen::model(&q);
+                    let (model, mut comment) = gen::model(&q);
+                    if retried {
+                        comment = RETRY_COMMENT.to_vec();
+                    }
+                    let what = if retried { format!("{what}; finish() refused it, set_raw_comment(short), finish() again") } else { what };
                     let opts = parse::Opts { lenient: false, allow_leading_gap: true, decode_limit: 64 << 20, allow_trailing: false };
                     let parsed = match parse::parse(&file, opts) {
                         Ok(pp) => pp,
